@@ -4,7 +4,7 @@ package sim
 // check (DESIGN.md section 4). Weights are relative; every run draws its own
 // subset and scaling (swarm).
 
-var faultKinds = []string{"keyextra", "batchpartial", "bad", "idxtype", "keyupdate", "batchbad", "toggle", "poke", "chase", "drop", "clear", "idxdrop", "idxcreate", "create"}
+var faultKinds = []string{"native", "keyextra", "batchpartial", "bad", "idxtype", "keyupdate", "batchbad", "toggle", "poke", "chase", "drop", "clear", "idxdrop", "idxcreate", "create"}
 
 func base(prop string) *Profile {
 	return &Profile{Prop: prop, MinClients: 1, MaxClients: 2, MaxTables: 2, MinIdx: 0, MaxIdx: 2, RangeProb: 0.6, KeyStyle: "plain",
@@ -28,6 +28,7 @@ func ProfileFor(prop string) *Profile {
 		p.RangeProb = 0.8
 		w["put"], w["update"], w["delete"], w["get"] = 4, 2, 1.5, 0.5
 		w["query"], w["scan"] = 5, 3
+		w["native"] = 0.2
 		w["idxtype"], w["bad"], w["clear"], w["idxcreate"], w["idxdrop"] = 0.2, 0.2, 0.4, 0.3, 0.1
 	case "C03":
 		p.MinIdx, p.MaxIdx = 1, 3
@@ -99,6 +100,7 @@ func ProfileFor(prop string) *Profile {
 		w["create"], w["drop"], w["clear"], w["idxcreate"], w["idxdrop"], w["describe"] = 2.5, 2, 1.2, 1.2, 0.8, 2.5
 		w["put"], w["update"], w["delete"], w["get"], w["scan"], w["query"] = 4, 1.5, 1, 1, 0.7, 0.7
 		w["open"], w["resume"], w["batchw"] = 0.4, 0.8, 0.5
+		w["native"] = 0.5
 		p.FaultFree = 0
 	case "C19":
 		p.MinClients, p.MaxClients = 1, 1
